@@ -7,5 +7,6 @@
 package handshake
 
 //@ func Header.Marshal
+//@ inline
 //@ ensures c12-fresh-buffer: fresh(result0)
 //@ end
